@@ -575,3 +575,35 @@ func CommaOk(v interface{}) int {
 	}
 	return -1
 }
+
+// Bump: the new value of a field in terms of its old value.
+func Bump(p *pair) { p.a = p.a + 1 }
+
+// BumpWrong claims something about a field it does not control.
+func BumpWrong(p *pair) { p.a = p.a + 1 }
+
+type wrap struct{ in *pair }
+
+// BumpIn writes through a pointer held in a struct parameter.
+func BumpIn(w wrap) { w.in.a = 7 }
+
+// CallsBumpIn sees the declared effect of BumpIn.
+func CallsBumpIn() int {
+	x := pair{1, 2}
+	BumpIn(wrap{&x})
+	return x.a
+}
+
+// CallsBumpInStale may not assume the old value.
+func CallsBumpInStale() int {
+	x := pair{1, 2}
+	BumpIn(wrap{&x})
+	return x.a
+}
+
+// CallsBumpKeepsB: the frame of Bump says nothing about b, so b is forgotten too (modifies *p is the whole object).
+func CallsBumpKeepsB() int {
+	x := pair{1, 2}
+	Bump(&x)
+	return x.b
+}
